@@ -14,10 +14,15 @@ MANIFEST = dict(
          "meaning of the tokens ripgrep produces = git's component-wise matching (gitignore_pattern_eq_git); (line "
          "level) for every line in an executable class (both line readers run, tokens = segment form, flags agree) "
          "ripgrep's reading = GitSem's; (file level) last matching line wins through the real pipeline (add_line, glob "
-         "set, reverse scan) = git's file verdict; (tree level, PARTIAL) walker model visited = git_visited for any ignore "
-         "files at any levels whose lines are in the class, composing last-match-wins, directory-only, nearest file "
-         "first and pruning. Missing lemma (stated, tested on every generated line): every line of the documented "
-         "grammar is in the class (its glob-parser half is proved in C12). Known findings refuted by witness. Tie to "
+         "set, reverse scan) = git's file verdict; (tree level) walker model visited = git_visited and equal listings of "
+         "every finite tree, for any ignore files at any levels whose lines are lines of the documented grammar "
+         "(rendered abstract syntax: optional !, optional leading /, pieces of plain/escaped literals, ?, *, positive "
+         "classes not admitting '/', ** as a whole piece, optional trailing /, trailing blanks; comments; blank lines), "
+         "composing last-match-wins, directory-only, nearest file first and pruning; grammar_lines_in_class proves "
+         "that both line readers (add_line incl. blank trimming and the **/ and /* rewriting; git's reader) put every "
+         "grammar line into the executable class. Not covered by the grammar theorem (class hypothesis or known "
+         "finding): negated classes / classes admitting '/', braces, escaped backslash or slash, a leading escaped ! "
+         "or #, tabs. Known findings refuted by witness. Tie to "
          "the code: three-way, git ls-files vs rg --files and ignore::WalkBuilder and "
          "Gitignore::matched_path_or_any_parents vs the model; extracted GitSem vs real git.",
     note="trusted: git 2.39 as executable specification; Coq kernel, extraction, OCaml driver, Rust harness; C12's trusted "
